@@ -1240,6 +1240,15 @@ func (g *scenGen) trigger() {
 			t["event"] = M{"type": "started", "optin": ref(g.optins[0])}
 		}
 	}
+	// every trigger type can carry what the base trigger carries: the session-chain history, a user, an origin
+	if _, has := t["history"]; !has && r.Chance(0.2) {
+		anc := fw.Pick(r, []int{1, 2, 3, 4, 5, 6, 50})
+		t["history"] = M{"parent_uuid": UUID4(r), "ancestors": anc, "ancestors_since_input": fw.Pick(r, []int{0, 1, 2, 4, 5, 6, anc})}
+	}
+	if t["type"] == "manual" && r.Chance(0.2) {
+		t["user"] = M{"email": "bob@nyaruka.com", "name": "Bob"}
+		t["origin"] = fw.Pick(r, []string{"ui", "api"})
+	}
 	if r.Chance(0.75) {
 		t["environment"] = g.env()
 	}
